@@ -18,6 +18,12 @@
 //! mode 4  Runtime::poll_with / Runtime::poll called by hand on a real Runtime
 //!         (slot clock as in mode 1), with and without an I/O completion waiting
 //!         for the driver: which sleeps are woken by each turn.
+//! mode 6  timers (sleep_until / timeout_at / timeout / sleep) next to a task that
+//!         keeps completions flowing through the driver (pipe or socketpair
+//!         ping-pong between two tasks, cross-thread wakes, spawn_blocking
+//!         results, inline file operations) until well after the last deadline:
+//!         every timer must fire while the traffic is still running.  Lateness
+//!         is judged in traffic rounds (each needs a driver poll), not wall time.
 //! mode 5  Interval starting in the future whose first tick is dropped several
 //!         times: the deadline of each attempt, read back from the wheel.
 use std::{
@@ -880,29 +886,39 @@ fn exec_b(drv: u64, steps: Vec<BStep>) -> Vec<u64> {
 
 static B_TABLE: OnceLock<HashMap<Vec<u64>, Vec<u64>>> = OnceLock::new();
 
-/// all mode-2 cases of the case file are run up front, in parallel
+/// all mode-2 and mode-6 cases of the case file are run up front, in parallel
 fn precompute_b() -> HashMap<Vec<u64>, Vec<u64>> {
     let args: Vec<String> = std::env::args().collect();
     let start: usize = args.get(2).map(|s| s.parse().unwrap()).unwrap_or(0);
     let text = std::fs::read_to_string(&args[1]).unwrap_or_default();
-    let mut todo = Vec::new();
+    type Job = Box<dyn FnOnce() -> Vec<u64> + Send>;
+    let mut todo: Vec<(Vec<u64>, Job)> = Vec::new();
     for line in text.lines().skip(start) {
         let case: Vec<u64> = line.split_whitespace().filter_map(|t| t.parse().ok()).collect();
-        if case.first() != Some(&2) {
-            continue;
-        }
-        let mut c = Case::new(&case[1..]);
-        if let Ok((drv, steps)) = decode_b(&mut c) {
-            todo.push((case.clone(), drv, steps));
+        match case.first() {
+            Some(&2) => {
+                let mut c = Case::new(&case[1..]);
+                if let Ok((drv, steps)) = decode_b(&mut c) {
+                    todo.push((case.clone(), Box::new(move || exec_b(drv, steps))));
+                }
+            }
+            Some(&6) => {
+                let mut c = Case::new(&case[1..]);
+                if let Ok(t) = decode_t(&mut c) {
+                    todo.push((case.clone(), Box::new(move || exec_t(t))));
+                }
+            }
+            _ => {}
         }
     }
     let mut table = HashMap::new();
     // at most 32 runtimes at a time
-    for batch in todo.chunks(32) {
-        let handles: Vec<_> = batch
-            .iter()
-            .cloned()
-            .map(|(case, drv, steps)| (case, std::thread::spawn(move || exec_b(drv, steps))))
+    let mut todo = todo.into_iter().peekable();
+    while todo.peek().is_some() {
+        let handles: Vec<_> = todo
+            .by_ref()
+            .take(32)
+            .map(|(case, job)| (case, std::thread::spawn(job)))
             .collect();
         for (c, h) in handles {
             table.insert(c, h.join().unwrap_or_else(|_| vec![2, 9]));
@@ -918,6 +934,287 @@ fn run_b(case: &[u64]) -> Result<Vec<u64>, BadCase> {
         return Ok(r.clone());
     }
     Ok(exec_b(drv, steps))
+}
+
+// ---------------------------------------------------------------------------
+// mode 6: timers while other tasks keep the driver busy
+
+#[derive(Clone)]
+struct TCase {
+    drv: u64,
+    traffic: u64,
+    extra: u64,
+    timers: Vec<(u64, u64)>,
+}
+
+fn decode_t(c: &mut Case) -> Result<TCase, BadCase> {
+    let (drv, traffic, extra, k) = (c.take()?, c.take()?, c.take()?, c.take()?);
+    if drv > 1 || traffic > 4 || extra > 20 || k == 0 || k > 4 {
+        return Err(BadCase);
+    }
+    let mut timers = Vec::new();
+    for _ in 0..k {
+        let (d, kind) = (c.take()?, c.take()?);
+        if d > 5 || kind > 3 {
+            return Err(BadCase);
+        }
+        timers.push((d, kind));
+    }
+    if c.i != c.v.len() {
+        return Err(BadCase);
+    }
+    Ok(TCase { drv, traffic, extra, timers })
+}
+
+/// rounds the traffic keeps going after it has seen the last deadline pass
+const AFTER_ROUNDS: u64 = 200;
+
+struct Traffic {
+    rounds: std::cell::Cell<u64>,
+    deadlines: Vec<Instant>,
+    seen: std::cell::RefCell<Vec<Option<(u64, Instant)>>>, // round / time the deadline was first seen passed
+    end: Instant,
+    hard_end: Instant,
+    by_guard: std::cell::Cell<bool>,
+}
+
+impl Traffic {
+    /// one round done; true = stop
+    fn round(&self) -> bool {
+        let r = self.rounds.get() + 1;
+        self.rounds.set(r);
+        let now = Instant::now();
+        let mut seen = self.seen.borrow_mut();
+        let mut last = 0;
+        let mut all = true;
+        for (i, dl) in self.deadlines.iter().enumerate() {
+            if seen[i].is_none() && now >= *dl {
+                seen[i] = Some((r, now));
+            }
+            match seen[i] {
+                Some((r0, _)) => last = last.max(r0),
+                None => all = false,
+            }
+        }
+        if now >= self.hard_end {
+            self.by_guard.set(true);
+            return true;
+        }
+        all && now >= self.end && r >= last + AFTER_ROUNDS
+    }
+}
+
+async fn program_t(t: TCase, indet: Arc<AtomicU64>) -> Vec<u64> {
+    use std::{cell::RefCell, rc::Rc};
+    let base = Instant::now() + Duration::from_millis(3);
+    let deadlines: Vec<Instant> =
+        t.timers.iter().map(|(d, _)| base + Duration::from_millis(d * U_MS)).collect();
+    let maxdl = *deadlines.iter().max().unwrap();
+    let end = maxdl + Duration::from_millis(300 + t.extra * Q_MS);
+    let tr = Rc::new(Traffic {
+        rounds: std::cell::Cell::new(0),
+        deadlines: deadlines.clone(),
+        seen: RefCell::new(vec![None; deadlines.len()]),
+        end,
+        hard_end: end + Duration::from_secs(4),
+        by_guard: std::cell::Cell::new(false),
+    });
+    // the timers, each in its own task
+    let fired: Rc<RefCell<Vec<Option<(u64, Instant)>>>> = Rc::new(RefCell::new(vec![None; deadlines.len()]));
+    let mut handles = Vec::new();
+    for (i, (_, kind)) in t.timers.iter().enumerate() {
+        let (dl, kind, tr2, fired2) = (deadlines[i], *kind, tr.clone(), fired.clone());
+        handles.push(compio_runtime::spawn(async move {
+            match kind {
+                0 => sleep_until(dl).await,
+                1 => {
+                    let r = timeout_at(dl, std::future::pending::<()>()).await;
+                    assert!(r.is_err());
+                }
+                2 => {
+                    let r = compio_runtime::time::timeout(
+                        dl.saturating_duration_since(Instant::now()),
+                        std::future::pending::<()>(),
+                    )
+                    .await;
+                    assert!(r.is_err());
+                }
+                _ => compio_runtime::time::sleep(dl.saturating_duration_since(Instant::now())).await,
+            }
+            fired2.borrow_mut()[i] = Some((tr2.rounds.get(), Instant::now()));
+        }));
+    }
+    // the traffic: every round needs the driver to deliver a completion / a wake
+    match t.traffic {
+        0 => {
+            let (mut rx1, mut tx1) = compio_fs::pipe::anonymous().await.unwrap();
+            let (mut rx2, mut tx2) = compio_fs::pipe::anonymous().await.unwrap();
+            let echo = compio_runtime::spawn(async move {
+                loop {
+                    let (n, b) = rx1.read(Vec::with_capacity(1)).await.unwrap();
+                    if n == 0 || b[0] == 0 {
+                        break;
+                    }
+                    tx2.write_all(b).await.unwrap();
+                }
+            });
+            loop {
+                tx1.write_all(vec![1u8]).await.unwrap();
+                let (n, _) = rx2.read(Vec::with_capacity(1)).await.unwrap();
+                assert_eq!(n, 1);
+                if tr.round() {
+                    break;
+                }
+            }
+            tx1.write_all(vec![0u8]).await.unwrap();
+            let _ = echo.await;
+        }
+        1 => {
+            let (a, b) = std::os::unix::net::UnixStream::pair().unwrap();
+            a.set_nonblocking(true).unwrap();
+            b.set_nonblocking(true).unwrap();
+            let mut a = compio_net::UnixStream::from_std(a).unwrap();
+            let mut b = compio_net::UnixStream::from_std(b).unwrap();
+            let echo = compio_runtime::spawn(async move {
+                loop {
+                    let (n, buf) = b.read(Vec::with_capacity(1)).await.unwrap();
+                    if n == 0 || buf[0] == 0 {
+                        break;
+                    }
+                    b.write_all(buf).await.unwrap();
+                }
+            });
+            loop {
+                a.write_all(vec![1u8]).await.unwrap();
+                let (n, _) = a.read(Vec::with_capacity(1)).await.unwrap();
+                assert_eq!(n, 1);
+                if tr.round() {
+                    break;
+                }
+            }
+            a.write_all(vec![0u8]).await.unwrap();
+            let _ = echo.await;
+        }
+        2 => {
+            // a stream of wakes from another thread
+            let flag = Arc::new(Flag { ready: AtomicBool::new(false), waker: Mutex::new(None) });
+            let stop = Arc::new(AtomicBool::new(false));
+            let (f2, s2) = (flag.clone(), stop.clone());
+            let helper = std::thread::spawn(move || {
+                while !s2.load(Ordering::SeqCst) {
+                    f2.ready.store(true, Ordering::SeqCst);
+                    if let Some(w) = f2.waker.lock().unwrap().take() {
+                        w.wake();
+                    }
+                    std::thread::yield_now();
+                }
+            });
+            loop {
+                FlagFuture(flag.clone()).await;
+                flag.ready.store(false, Ordering::SeqCst);
+                if tr.round() {
+                    break;
+                }
+            }
+            stop.store(true, Ordering::SeqCst);
+            let _ = helper.join();
+        }
+        3 => loop {
+            compio_runtime::spawn_blocking(|| ()).await.unwrap();
+            if tr.round() {
+                break;
+            }
+        },
+        _ => {
+            let null = compio_fs::OpenOptions::new().write(true).open("/dev/null").await.unwrap();
+            let zero = compio_fs::File::open("/dev/zero").await.unwrap();
+            loop {
+                inline_op(&null, &zero, tr.rounds.get() % 2 == 1).await;
+                if tr.round() {
+                    break;
+                }
+            }
+        }
+    }
+    // the traffic has stopped: every timer must have fired by now
+    let stop_round = tr.rounds.get();
+    let at_stop: Vec<Option<(u64, Instant)>> = fired.borrow().clone();
+    for h in handles {
+        let _ = h.await;
+    }
+    let mut out = vec![0u64];
+    let (mut late_rounds, mut late_us) = (0u64, 0u64);
+    for (i, dl) in deadlines.iter().enumerate() {
+        let after = fired.borrow()[i].unwrap();
+        let code = match at_stop[i] {
+            Some((r, at)) => {
+                if at < *dl {
+                    71
+                } else {
+                    if let Some((r0, t0)) = tr.seen.borrow()[i] {
+                        late_rounds = late_rounds.max(r.saturating_sub(r0));
+                        late_us = late_us.max(at.saturating_duration_since(t0).as_micros() as u64);
+                    }
+                    1
+                }
+            }
+            None if after.1 < *dl => 71,
+            None if tr.by_guard.get() => {
+                // the traffic itself did not get its rounds done in 4 s: no verdict
+                indet.fetch_add(1, Ordering::SeqCst);
+                1
+            }
+            None => 81, // fired only after the traffic stopped
+        };
+        out.push(code);
+    }
+    side(format!(
+        "T traffic {} drv {} rounds {} late_rounds {} late_us {}",
+        t.traffic, t.drv, stop_round, late_rounds, late_us
+    ));
+    out.push(timer_count());
+    out
+}
+
+fn exec_t(t: TCase) -> Vec<u64> {
+    let (tx, rx) = mpsc::channel();
+    std::thread::spawn(move || {
+        let r = std::panic::catch_unwind(move || {
+            let mut pb = ProactorBuilder::new();
+            pb.driver_type(if t.drv == 1 { DriverType::Poll } else { DriverType::IoUring });
+            let rt = RuntimeBuilder::new().with_proactor(pb).build().unwrap();
+            let indet = Arc::new(AtomicU64::new(0));
+            let out = rt.block_on(program_t(t, indet.clone()));
+            (out, indet.load(Ordering::SeqCst))
+        });
+        let _ = tx.send(r);
+    });
+    match rx.recv_timeout(Duration::from_secs(25)) {
+        Ok(Ok((out, indet))) => {
+            side(format!("B steps {} indeterminate {indet}", out.len() - 2));
+            out
+        }
+        Ok(Err(p)) => {
+            let msg = if let Some(s) = p.downcast_ref::<&str>() {
+                s.to_string()
+            } else if let Some(s) = p.downcast_ref::<String>() {
+                s.clone()
+            } else {
+                String::new()
+            };
+            vec![2, panic_code(&msg)]
+        }
+        Err(_) => vec![0, 78],
+    }
+}
+
+fn run_t(case: &[u64]) -> Result<Vec<u64>, BadCase> {
+    let mut c = Case::new(&case[1..]);
+    let t = decode_t(&mut c)?;
+    if let Some(r) = B_TABLE.get().and_then(|t| t.get(case)) {
+        return Ok(r.clone());
+    }
+    Ok(exec_t(t))
 }
 
 // ---------------------------------------------------------------------------
@@ -1200,6 +1497,7 @@ fn run(case: &[u64]) -> Result<Vec<u64>, BadCase> {
         3 => run_i(&mut c),
         4 => run_l(&mut c),
         5 => run_f(&mut c),
+        6 => run_t(case),
         _ => Err(BadCase),
     }
 }
